@@ -323,7 +323,7 @@ def _moved_sources(model, missing):
     return True
 
 
-def inv_c19(model, real, tier):
+def inv_c19(model, real, tier, ops=None):
     v = list(real.update_defects)
     evals = 1
     # an update that FAILS (git cannot be started) must leave the store exactly as it was: tried first,
@@ -354,7 +354,27 @@ def inv_c19(model, real, tier):
         got = (sdoc or {}).get("checkpoint")
         if show.code != 0 or got != real.last_update:
             v.append(("show-differs-from-last-update", "show %s vs last update %s" % (got, real.last_update)))
-    return v, evals, json.dumps((sdoc or {}).get("checkpoint"), sort_keys=True)
+    obs = json.dumps((sdoc or {}).get("checkpoint"), sort_keys=True)
+    # suffix probe from this state (the model merges histories that reach the same store; the
+    # implementation might not): one more update, one more update -p, then delete - show must follow each
+    # update and after the delete no checkpoint may exist, however many updates came before
+    if tier == "quick" and ops and ops[-1][0] not in ("CPU", "CPUP", "CPUI", "CPD", "OUTD"):
+        return v, evals, obs   # quick: only from states whose last operation touched the store
+    for extra in ([], ["-p"]):
+        up = real.r.mr("checkpoint", "update", *extra)
+        sh = real.r.mr("checkpoint", "show")
+        evals += 1
+        if up.code != 0 or sh.code != 0 or (up.json() or {}).get("checkpoint") != (sh.json() or {}).get("checkpoint"):
+            v.append(("show-differs-from-last-update", "suffix probe: update %s printed %s, show printed %s" % (extra, up.out[:150], sh.out[:150])))
+    de = real.r.mr("checkpoint", "delete")
+    sh = real.r.mr("checkpoint", "show")
+    doc = real.r.mr("analyze").json()
+    evals += 1
+    if de.code != 0 or sh.code == 0:
+        v.append(("show-succeeds-without-checkpoint", "suffix probe: after update, update -p, delete (exit %s) checkpoint show still prints %s" % (de.code, sh.out[:150])))
+    if doc is None or doc.get("checkpointed") is not False or doc.get("targets") != ALL_TARGETS:
+        v.append(("no-checkpoint-not-everything-changed", "suffix probe: after update, update -p, delete analyze printed %s" % (doc,)))
+    return v, evals, obs
 
 
 def inv_c07(model, real, ops, tier):
@@ -772,7 +792,7 @@ def state_task(task):
         if prop == "C02":
             v, evals, obs = inv_c02(model, real, tier)
         elif prop == "C19":
-            v, evals, obs = inv_c19(model, real, tier)
+            v, evals, obs = inv_c19(model, real, tier, ops)
         elif prop == "C07":
             v, evals, obs = inv_c07(model, real, ops, tier)
         else:
@@ -794,7 +814,7 @@ def state_task(task):
 RULES = {
     "C02": "plus an odd-file-name family (18 names: leading/trailing spaces, tab, newline, quote, backslash, non-ASCII, 200 characters, leading dash, glob characters), each untracked and tracked-modified; plus a many-pending-paths family (1..40 paths in quick, up to 600 in thorough, of mixed sizes, untracked / staged / modified / deleted at once); plus the size family of C07 judged on the reported change list (a pending file edited beyond a buffer/read boundary must be listed, restored content must be filtered); explicit-state BFS over operation sequences {write(p,c), delete(p), mv, git mv, add -A, commit, checkpoint update [-p] [--id k], checkpoint delete, out delete --all} on paths {a/f.txt, 'b/n e-acute.txt', b/m.txt}; state = (commits, index, worktree, checkpoint) with commit ids canonicalised to indices; each new state is materialised in a real repository (real git, real monorail) and, when a checkpoint exists, `analyze --changes` for the default range and every ordered pair of commits must equal the statement's set (content differs from base, plus untracked, minus pending-checksum matches), verbatim and sorted",
     "C07": "plus an odd-file-name family (18 names: leading/trailing spaces, tab, newline, quote, backslash, non-ASCII, 200 characters, leading dash, glob characters), each untracked and tracked-modified; plus a many-pending-paths family (1..40 paths in quick, up to 600 in thorough, of mixed sizes, untracked / staged / modified / deleted at once); plus the update-pair family of C19 judged on `analyze` after the second update -p; plus a size family: a pending file (untracked / modified / staged) of each size around the checksum buffer and read boundaries (65535..65537, 200000, 2 MiB+1; thorough more) must be clean after update -p and re-flagged by a one-byte edit at each boundary offset, an append and a truncation; same BFS; in every state reached by `checkpoint update -p`: analyze reports no targets and run starts nothing; then from that state every single later edit (fresh content for each path, new files, deletion of committed files; thorough: every pair) must re-flag exactly the targets of the edited paths, and a second update -p must clear them",
-    "C19": "plus a many-pending-paths family (1..40 paths in quick, up to 600 in thorough, of mixed sizes, untracked / staged / modified / deleted at once); plus an update-pair family: worktree set to pending configuration S1 (each of a/f.txt, b/m.txt, a/g.txt absent or with one of two contents), `update -p`, worktree set to S2, second update (-p or plain) for every pair (S1,S2) (quick: at most two pending paths each): show must equal what the second update printed; same BFS; in every state `checkpoint show` must equal what the last successful update printed (or fail when deleted / never set); updates must record HEAD or the given --id; without a checkpoint analyze reports checkpointed=false with every target and run covers every target",
+    "C19": "plus a many-pending-paths family (1..40 paths in quick, up to 600 in thorough, of mixed sizes, untracked / staged / modified / deleted at once); plus an update-pair family: worktree set to pending configuration S1 (each of a/f.txt, b/m.txt, a/g.txt absent or with one of two contents), `update -p`, worktree set to S2, second update (-p or plain) for every pair (S1,S2) (quick: at most two pending paths each): show must equal what the second update printed; same BFS; from every state (quick: every state whose last operation touched the store) a suffix probe update, update -p, delete: show follows each update and afterwards no checkpoint exists; in every state `checkpoint show` must equal what the last successful update printed (or fail when deleted / never set); updates must record HEAD or the given --id; without a checkpoint analyze reports checkpointed=false with every target and run covers every target",
     "C05": "same BFS (part B of C05): in every state `analyze --target-groups` then `run -c build` in trace mode must agree on groups and started targets",
 }
 
